@@ -237,6 +237,61 @@ theorem gather_dims {α} (t : T α) (I : List Nat) (s : T α) (hs : t.gather I =
     · cases hs; simp [hd]
     · cases hs
 
+theorem getElem?_flatMap_blocks {α β} (f : β → List α) (n : Nat) :
+    ∀ (I : List β) (j k : Nat) (hj : j < I.length), (∀ i ∈ I, (f i).length = n) → k < n →
+      (I.flatMap f)[j * n + k]? = (f I[j])[k]?
+  | [], j, k, hj, _, _ => by simp at hj
+  | i :: I, 0, k, _, hlen, hk => by
+    have h0 : (f i).length = n := hlen i (by simp)
+    simp only [List.flatMap_cons, Nat.zero_mul, Nat.zero_add, List.getElem_cons_zero]
+    rw [List.getElem?_append_left (by omega)]
+  | i :: I, j + 1, k, hj, hlen, hk => by
+    have h0 : (f i).length = n := hlen i (by simp)
+    have ih := getElem?_flatMap_blocks f n I j k (by simpa using hj) (fun x hx => hlen x (by simp [hx])) hk
+    simp only [List.flatMap_cons, List.getElem_cons_succ]
+    rw [List.getElem?_append_right (by rw [h0, Nat.add_mul]; omega)]
+    rw [h0, ← ih]
+    congr 1
+    rw [Nat.add_mul]; omega
+
+/-- element `(j, q…)` of `indexed(I)` is element `(I[j], q…)` of the tensor -/
+theorem gather_get {α} (t : T α) (I : List Nat) (s : T α) (j : Nat) (q : List Nat) (hwf : t.wf)
+    (hs : t.gather I = some s) (hq : Valid s.dims (j :: q)) :
+    ∃ hj : j < I.length, s.get? (j :: q) = t.get? (I[j] :: q) := by
+  unfold T.gather at hs
+  split at hs
+  · cases hs
+  · rename_i d ds hd
+    split at hs
+    · rename_i hall
+      cases hs
+      simp only at hq
+      obtain ⟨hj, hq2⟩ := hq
+      refine ⟨hj, ?_⟩
+      have hIj : I[j] < d := by
+        have := List.all_eq_true.mp hall I[j] (List.getElem_mem hj)
+        simpa using this
+      have hv : Valid t.dims (I[j] :: q) := by rw [hd]; exact ⟨hIj, hq2⟩
+      have hv' : Valid (I.length :: ds) (j :: q) := ⟨hj, hq2⟩
+      have hk := index_lt_size ds q hq2
+      have hv2 : Valid (d :: ds) (I[j] :: q) := ⟨hIj, hq2⟩
+      simp only [T.get?, hv', hv2, if_true, hd, index]
+      unfold T.wf at hwf
+      rw [hd] at hwf
+      simp only [size] at hwf
+      rw [getElem?_flatMap_blocks _ (size ds) I j (index ds q) hj ?_ hk]
+      · rw [List.getElem?_take, if_pos hk, List.getElem?_drop]
+      · intro i hi
+        have hid : i < d := by
+          have := List.all_eq_true.mp hall i hi
+          simpa using this
+        simp only [List.length_take, List.length_drop]
+        have : i * size ds + size ds ≤ d * size ds := by
+          calc i * size ds + size ds = (i + 1) * size ds := by rw [Nat.add_mul, Nat.one_mul]
+            _ ≤ d * size ds := Nat.mul_le_mul_right _ hid
+        omega
+    · cases hs
+
 /-! ### non-vacuity: the shape of the unit test, and a shape with a 0 and a 1 dimension -/
 
 example : Valid [3, 7, 5, 4] [2, 6, 4, 3] ∧ index [3, 7, 5, 4] [2, 6, 4, 3] = 419 ∧ size [3, 7, 5, 4] = 420 := by
